@@ -35,7 +35,9 @@ Hdr == /\ e.ev = "hdr"
        /\ h' = l
 
 Seg == /\ e.ev = "seg"
-       /\ LET pm == IF e.by = "nr" THEN LookupNr(C, e.q, e.now) ELSE LookupTime(C, e.q, e.now)
+       /\ LET \* ato_inf with a SegmentTimeline URL is a bad request (63cb812): no oracle clause speaks about a refused configuration
+              refused == Refused(C) /\ e.mode \in {"time", "tlnr"}
+              pm == IF e.by = "tm" THEN LookupTime(C, e.q, e.now) ELSE IF refused THEN RefusedRes ELSE LookupNr(C, e.q, e.now)
               o  == e.o
               np == NowP(e.now)
               \* the segment the request denotes according to the oracle (<<-1,-1>>: none)
@@ -51,7 +53,8 @@ Seg == /\ e.ev = "seg"
                     <<"observed", <<o.t, o.d, o.nr, o.idx>>, "predicted", <<pm.t, pm.d, pm.nr, pm.idx>>>>)
           /\ Clause("X03.fidelity.early", (o.st = 425 /\ pm.st = 425 /\ ~pm.efrag) => o.early = pm.early,
                     <<"observed_ms", o.early, "predicted_ms", pm.early>>)
-          /\ IF k >= 0 THEN
+          /\ IF refused THEN TRUE
+             ELSE IF k >= 0 THEN
                /\ Clause("X03.oracle.status", o.st \in Status(SC, k, i, np),
                          <<"status", o.st, "allowed", Status(SC, k, i, np), "seg", x, "avail", Avail(SC, k, i)>>)
                /\ Clause("X03.oracle.seg", o.st = 200 => (/\ TEq(TNorm(L(SC), 0, o.t), Start(SC, k, i)) /\ o.d = Dur(SC, i)
